@@ -151,7 +151,7 @@ def pair_label(base: Dict[str, Any], other: Dict[str, Any], only: Sequence[str] 
     return ""
 
 
-ORDER_DEPENDENT = ("stale-cutoff-cache",)
+ORDER_DEPENDENT = ("no-order-dependent-class-is-known",)
 
 
 def crash_label(sub: Dict[str, Any]) -> str:
@@ -368,10 +368,10 @@ def replay(case: Dict[str, Any]) -> List[str]:
 # ----------------------------------------------------------------------------------------------
 
 ROOTS = {
-    "C07-F1": "stale-cutoff-cache",
-    "C07-F2": "whole-record-window",
-    "C07-F3": "origin-spanning-hit-gene",
+    # C07-F1, F2, F3 (stale cutoff cache, whole-record window, envelope distance) were repaired in /repo:
+    # their witnesses stay in known_findings.json as regression tests, no input class is attached any more
     "C07-F4": "window-edge-over-origin",
+    "C07-F12": "lookup-scan-loses-neighbour",
     "C07-F5": "origin-spanning-gene-in-chain",
     "C07-F6": "gene-at-0-with-origin-spanning-gene",
     "C07-F7": "superior-overlaps-over-origin",
